@@ -151,6 +151,40 @@ Definition all_addrs (ps : list party) : list Z := map p_addr ps.
 Definition nonopt_addrs (ps : list party) : list Z :=
   map p_addr (filter (fun p => negb (p_opt p)) ps).
 
+(** *** Writing an existing scope, value owner included ("Scope Value Owner Address
+    Requirements").  What "the ONLY change is to that value owner address" means is spelled out
+    here on the fields of the scope, independently of Scope.Equals: the owner lists are the same
+    when they have the same length and every stored owner appears in the message with the same
+    address, role AND optional flag (for duplicate-free lists — a store invariant and a
+    ValidateBasic check — that is equality as sets, see [owners_unchanged_sym]). *)
+Definition party_eqb (p q : party) : bool :=
+  Z.eqb (p_addr p) (p_addr q) && Z.eqb (p_role p) (p_role q) && Bool.eqb (p_opt p) (p_opt q).
+Definition owners_unchanged (stored proposed : list party) : bool :=
+  Nat.eqb (length stored) (length proposed) &&
+  forallb (fun p => existsb (party_eqb p) proposed) stored.
+Definition data_unchanged (s1 s2 : list Z) : bool :=
+  forallb (fun a => mem a s2) s1 && forallb (fun a => mem a s1) s2.
+(** some field other than the value owner differs *)
+Definition other_change (ex pr : scope_view) : bool :=
+  negb (Z.eqb (sv_spec ex) (sv_spec pr) && owners_unchanged (sv_owners ex) (sv_owners pr) &&
+        data_unchanged (sv_data ex) (sv_data pr) && Bool.eqb (sv_rollup ex) (sv_rollup pr)).
+(** a value owner is proposed and it is not the current one *)
+Definition vo_changing (ex pr : scope_view) : bool :=
+  match sv_vo pr with
+  | None => false
+  | Some p => negb (opt_z_eqb (sv_vo ex) (Some p))
+  end.
+(** the current value owner, when it is being replaced: it must sign *)
+Definition vo_required (ex pr : scope_view) : list Z :=
+  if vo_changing ex pr then match sv_vo ex with Some v => [v] | None => [] end else [].
+(** "a scope with a value owner address is being updated, and the ONLY change is to that value
+    owner address": only the value-owner requirements apply *)
+Definition doc_only_vo (ex pr : scope_view) : bool :=
+  vo_changing ex pr && match sv_vo ex with Some _ => true | None => false end &&
+  negb (other_change ex pr).
+Definition nothing_changes (ex pr : scope_view) : bool :=
+  negb (vo_changing ex pr) && negb (other_change ex pr).
+
 Definition doc_sound_gen (uf : env -> list party -> list party -> Z -> bool)
   (e : env) (op : outer) (signers : list Z) : bool :=
   match op with
@@ -241,6 +275,25 @@ Definition doc_sound_gen (uf : env -> list party -> list party -> Z -> bool)
       (* "When a value owner address is a non-marker address, and is being changed, that existing
          address must be one of the signers" (or have granted to one) *)
       forallb (fun o => match o with Some a => covered_b e signers a | None => false end) vos
+  | OWriteScopeFull ex pr roles =>
+      (* the value owner being replaced signs; unless that is the only change, the party rules of
+         "Writing or Deleting a Scope" apply on top: ANY difference in the owner list (address,
+         role or optional flag), the specification, the data access or the rollup flag counts *)
+      forallb (covered_b e signers) (vo_required ex pr) &&
+      (if doc_only_vo ex pr then
+         contract_rule_b e (uf e (addr_parties (vo_required ex pr)) []) true signers
+       else
+         roles_present_b (sv_owners pr) roles && provenance_rule_b e (sv_owners pr) &&
+         (if sv_rollup ex then
+            required_covered_b e signers (sv_owners ex) && roles_signed_b e signers (sv_owners ex) roles &&
+            contract_rule_b e (uf e (addr_parties (vo_required ex pr) ++ sv_owners ex) (sv_owners ex))
+                            true signers
+          else if nothing_changes ex pr then
+            contract_rule_b e (uf e (addr_parties (vo_required ex pr)) []) true signers
+          else
+            forallb (covered_b e signers) (all_addrs (sv_owners ex)) &&
+            contract_rule_b e (uf e (addr_parties (vo_required ex pr ++ all_addrs (sv_owners ex))) [])
+                            true signers))
   end.
 
 (** "used" read as "stands for a party" (directly or through that party's grant) ... *)
@@ -256,6 +309,7 @@ Definition doc_wellformed (op : outer) : bool :=
   | OWriteScope _ _ prop_rollup proposed _ _ => parties_basic proposed && optional_parties_ok prop_rollup proposed
   | OUpdateOwners rollup _ proposed _ => parties_basic proposed && optional_parties_ok rollup proposed
   | OWriteSession rollup _ _ proposed _ => parties_basic proposed && optional_parties_ok rollup proposed
+  | OWriteScopeFull _ pr _ => parties_basic (sv_owners pr) && optional_parties_ok (sv_rollup pr) (sv_owners pr)
   | _ => true
   end.
 
@@ -314,6 +368,14 @@ Definition doc_direct (e : env) (op : outer) (signers : list Z) : bool :=
       match vos with [] => false | _ :: _ => true end &&
       forallb (fun o => match o with Some a => negb (Z.eqb a proposed) && mem a signers
                                 | None => false end) vos
+  | OWriteScopeFull ex pr roles =>
+      forallb (fun a => mem a signers) (vo_required ex pr) &&
+      (if doc_only_vo ex pr then true
+       else
+         roles_present_b (sv_owners pr) roles && provenance_rule_b e (sv_owners pr) &&
+         (if sv_rollup ex then required_direct_b signers (sv_owners ex) &&
+                               roles_direct_b signers (sv_owners ex) roles
+          else forallb (fun a => mem a signers) (all_addrs (sv_owners ex))))
   end.
 
 (** *** The documented table again, as data for the [Prop] theorems: whose signature an accepted
@@ -336,6 +398,11 @@ Definition doc_required_addrs (op : outer) : list Z :=
   | ODeleteRecord rollup owners _ => if rollup then nonopt_addrs owners else all_addrs owners
   | ODataAccess rollup owners _ => if rollup then nonopt_addrs owners else all_addrs owners
   | OUpdateValueOwners vos _ => some_addrs vos
+  | OWriteScopeFull ex pr _ =>
+      vo_required ex pr ++
+      (if doc_only_vo ex pr then []
+       else if sv_rollup ex then nonopt_addrs (sv_owners ex)
+       else if nothing_changes ex pr then [] else all_addrs (sv_owners ex))
   end.
 
 Definition doc_role_pool (op : outer) : option (list party * list Z) :=
@@ -348,6 +415,9 @@ Definition doc_role_pool (op : outer) : option (list party * list Z) :=
   | OWriteRecord true _ session _ roles => Some (session, roles)
   | ODeleteRecord true owners (Some roles) => Some (owners, roles)
   | ODataAccess true owners (Some roles) => Some (owners, roles)
+  | OWriteScopeFull ex pr roles =>
+      if doc_only_vo ex pr then None
+      else if sv_rollup ex then Some (sv_owners ex, roles) else None
   | _ => None
   end.
 
@@ -382,6 +452,11 @@ Definition doc_parties (op : outer) : option (list party * list party) :=
       if rollup then Some (owners, match roles with Some _ => owners | None => [] end)
       else Some (addr_parties (all_addrs owners), [])
   | OUpdateValueOwners vos _ => Some (addr_parties (some_addrs vos), [])
+  | OWriteScopeFull ex pr _ =>
+      if doc_only_vo ex pr then Some (addr_parties (vo_required ex pr), [])
+      else if sv_rollup ex then Some (addr_parties (vo_required ex pr) ++ sv_owners ex, sv_owners ex)
+      else if nothing_changes ex pr then Some (addr_parties (vo_required ex pr), [])
+      else Some (addr_parties (vo_required ex pr ++ all_addrs (sv_owners ex)), [])
   end.
 
 Definition doc_used (uf : list party -> list party -> Z -> Prop) (op : outer) (s : Z) : Prop :=
@@ -394,6 +469,12 @@ Definition doc_used (uf : list party -> list party -> Z -> Prop) (op : outer) (s
     the first signer, when it is a smart contract, silences all the others instead). *)
 Definition enforces_contract_rule (op : outer) : bool :=
   match op with OUpdateValueOwners _ _ => false | _ => true end.
+
+(** ValidateScopeValueOwnersSigners lets a smart contract in first position silence every other
+    signer, so on the endpoints that go through it direct signatures are only guaranteed to be
+    enough when no smart contract signs. *)
+Definition direct_with_contracts (op : outer) : bool :=
+  match op with OUpdateValueOwners _ _ | OWriteScopeFull _ _ _ => false | _ => true end.
 
 (** *** [doc_direct] in [Prop]: every party the documented table names signs DIRECTLY and the
     required roles are present among the directly signing parties (role lists with repeats:
@@ -456,4 +537,12 @@ Definition doc_direct_P (e : env) (op : outer) (signers : list Z) : Prop :=
   | OUpdateValueOwners vos proposed =>
       vos <> [] /\
       forall o, In o vos -> exists a, o = Some a /\ a <> proposed /\ In a signers
+  | OWriteScopeFull ex pr roles =>
+      all_sign signers (vo_required ex pr) /\
+      (if doc_only_vo ex pr then True
+       else
+         roles_present (sv_owners pr) roles /\ provenance_rule e (sv_owners pr) /\
+         (if sv_rollup ex then nonopt_sign signers (sv_owners ex) /\
+                               roles_direct signers (sv_owners ex) roles
+          else all_sign signers (all_addrs (sv_owners ex))))
   end.
